@@ -755,7 +755,9 @@ Definition check_pcgls_exit (n : nat) (A : list (list Q)) (b x0 : list Q) (P Pin
 Fixpoint check_mapped_iterates (j : nat) (step : q_cg_state -> q_cg_state) (mapx : list Qc -> list Qc) (st : q_cg_state) (obs : list (list Q)) : bool :=
   match obs with
   | [] => true
-  | o :: rest => qcl_close (iter_tol tol6 j) (qvec o) (mapx (cg_x Qc st)) &&
+  | o :: rest => (let m := mapx (cg_x Qc st) in let t := qc (iter_tol tol6 j) in
+                  (* norm-wise closeness: the data may be in large units (dyadic scale cells), a component of the exact iterate may be 0 *)
+                  Nat.eqb (length o) (length m) && qc_leb (qnormsq (qvsub (qvec o) m)) (t * t * (1 + qnormsq m))%Qc) &&
                  match rest with [] => true | _ => check_mapped_iterates (S j) step mapx (step st) rest end
   end.
 Definition check_pcgls_as_cgls (n : nat) (A : list (list Q)) (b y0 : list Q) (P Pinv : list (list Q)) (obs : list (list Q)) : bool :=
